@@ -42,7 +42,7 @@ import (
 	"os"
 )
 
-type verifNV struct {
+type verifRTNV struct {
 	Fn    string ` + "`json:\"fn\"`" + `
 	Kind  string ` + "`json:\"kind\"`" + `
 	W     int    ` + "`json:\"w\"`" + `
@@ -50,55 +50,55 @@ type verifNV struct {
 	Len   uint64 ` + "`json:\"len\"`" + `
 	Bytes string ` + "`json:\"bytes\"`" + `
 }
-type verifRFile struct {
+type verifRTFileT struct {
 	Entry  string           ` + "`json:\"entry\"`" + `
 	Params map[string]int64 ` + "`json:\"params\"`" + `
 	Known  []string         ` + "`json:\"known\"`" + `
-	Model  []verifNV        ` + "`json:\"model\"`" + `
+	Model  []verifRTNV        ` + "`json:\"model\"`" + `
 }
-type verifAssertFail struct{ msg string }
-type verifAssumeFail struct{}
+type verifRTAssertFail struct{ msg string }
+type verifRTAssumeFail struct{}
 
-var verifRF verifRFile
-var verifPos int
-var verifAllocLimit int = -1
+var verifRTFile verifRTFileT
+var verifRTPos int
+var verifRTAllocLimit int = -1
 
-func verifLoad() {
+func verifRTLoad() {
 	b, err := os.ReadFile(os.Getenv("VERIF_REPLAY"))
 	if err != nil {
 		panic(err)
 	}
-	if err := json.Unmarshal(b, &verifRF); err != nil {
+	if err := json.Unmarshal(b, &verifRTFile); err != nil {
 		panic(err)
 	}
 }
-func verifNext(fn string) verifNV {
-	if verifPos >= len(verifRF.Model) {
-		return verifNV{}
+func verifRTNext(fn string) verifRTNV {
+	if verifRTPos >= len(verifRTFile.Model) {
+		return verifRTNV{}
 	}
-	nv := verifRF.Model[verifPos]
+	nv := verifRTFile.Model[verifRTPos]
 	if nv.Fn != fn {
 		panic("verif: replay desynchronised: harness asked for " + fn + ", recorded " + nv.Fn)
 	}
-	verifPos++
+	verifRTPos++
 	return nv
 }
-func verifNondetInt() int       { return int(verifNext("verifNondetInt").Val) }
-func verifNondetI64() int64     { return int64(verifNext("verifNondetI64").Val) }
-func verifNondetU8() uint8      { return uint8(verifNext("verifNondetU8").Val) }
-func verifNondetU16() uint16    { return uint16(verifNext("verifNondetU16").Val) }
-func verifNondetU32() uint32    { return uint32(verifNext("verifNondetU32").Val) }
-func verifNondetU64() uint64    { return verifNext("verifNondetU64").Val }
-func verifNondetBool() bool     { return verifNext("verifNondetBool").Val != 0 }
+func verifNondetInt() int       { return int(verifRTNext("verifNondetInt").Val) }
+func verifNondetI64() int64     { return int64(verifRTNext("verifNondetI64").Val) }
+func verifNondetU8() uint8      { return uint8(verifRTNext("verifNondetU8").Val) }
+func verifNondetU16() uint16    { return uint16(verifRTNext("verifNondetU16").Val) }
+func verifNondetU32() uint32    { return uint32(verifRTNext("verifNondetU32").Val) }
+func verifNondetU64() uint64    { return verifRTNext("verifNondetU64").Val }
+func verifNondetBool() bool     { return verifRTNext("verifNondetBool").Val != 0 }
 func verifNondetBytes(n int) []byte {
-	nv := verifNext("verifNondetBytes")
+	nv := verifRTNext("verifNondetBytes")
 	b := make([]byte, n)
 	h, _ := hex.DecodeString(nv.Bytes)
 	copy(b, h)
 	return b
 }
 func verifNondetBytesCap(n, c int) []byte {
-	nv := verifNext("verifNondetBytesCap")
+	nv := verifRTNext("verifNondetBytesCap")
 	b := make([]byte, c)
 	h, _ := hex.DecodeString(nv.Bytes)
 	copy(b, h)
@@ -106,12 +106,12 @@ func verifNondetBytesCap(n, c int) []byte {
 }
 func verifAssume(b bool) {
 	if !b {
-		panic(verifAssumeFail{})
+		panic(verifRTAssumeFail{})
 	}
 }
 func verifAssert(b bool, msg string) {
 	if !b {
-		panic(verifAssertFail{msg})
+		panic(verifRTAssertFail{msg})
 	}
 }
 func verifReach(s string) {}
@@ -139,7 +139,7 @@ func verifAny(c ...bool) bool {
 	return false
 }
 func verifKnown(id string) bool {
-	for _, k := range verifRF.Known {
+	for _, k := range verifRTFile.Known {
 		if k == id {
 			return true
 		}
@@ -147,17 +147,18 @@ func verifKnown(id string) bool {
 	return false
 }
 func verifParam(name string, def int) int {
-	if v, ok := verifRF.Params[name]; ok {
+	if v, ok := verifRTFile.Params[name]; ok {
 		return int(v)
 	}
 	return def
 }
-func verifSplit(n int) int { return int(verifNext("verifSplit").Val) }
-func verifCase(n int) int  { return int(verifNext("verifCase").Val) }
+func verifSplit(n int) int { return int(verifRTNext("verifSplit").Val) }
+func verifCase(n int) int  { return int(verifRTNext("verifCase").Val) }
 func verifBytesEq(a, b []byte) bool { return bytes.Equal(a, b) }
 func verifStrEq(a, b string) bool   { return a == b }
 func verifProgress(measure func() int, fns ...string) {}
-func verifAllocBound(n int) { verifAllocLimit = n }
+func verifAllocBound(n int) { verifRTAllocLimit = n }
+func verifLoopBound(fnSuffix string, iterations int) {}
 `
 
 const rtTest = `//go:build verif
@@ -171,31 +172,31 @@ import (
 )
 
 func TestVerifReplay(t *testing.T) {
-	verifLoad()
+	verifRTLoad()
 	var m0 runtime.MemStats
 	runtime.ReadMemStats(&m0)
 	defer func() {
 		r := recover()
 		var m1 runtime.MemStats
 		runtime.ReadMemStats(&m1)
-		if verifAllocLimit >= 0 && m1.TotalAlloc-m0.TotalAlloc > uint64(verifAllocLimit)+(1<<20) {
-			fmt.Printf("\nVERIF-REPLAY: alloc: %%d bytes allocated, bound %%d\n", m1.TotalAlloc-m0.TotalAlloc, verifAllocLimit)
+		if verifRTAllocLimit >= 0 && m1.TotalAlloc-m0.TotalAlloc > uint64(verifRTAllocLimit)+(1<<20) {
+			fmt.Printf("\nVERIF-REPLAY: alloc: %%d bytes allocated, bound %%d\n", m1.TotalAlloc-m0.TotalAlloc, verifRTAllocLimit)
 		}
 		switch x := r.(type) {
 		case nil:
 			fmt.Println("\nVERIF-REPLAY: done")
-		case verifAssertFail:
+		case verifRTAssertFail:
 			fmt.Println("\nVERIF-REPLAY: assert: " + x.msg)
-		case verifAssumeFail:
+		case verifRTAssumeFail:
 			fmt.Println("\nVERIF-REPLAY: assume-failed")
 		default:
 			fmt.Printf("\nVERIF-REPLAY: panic: %%v\n", r)
 		}
 	}()
-	switch verifRF.Entry {
+	switch verifRTFile.Entry {
 %s
 	default:
-		panic("verif: unknown entry " + verifRF.Entry)
+		panic("verif: unknown entry " + verifRTFile.Entry)
 	}
 }
 `
@@ -423,7 +424,7 @@ func (rb *replayBinary) Run(rf *ReplayFile, rfPath string) {
 	}
 	if outcome == "" {
 		switch {
-		case strings.Contains(out, "fatal error: runtime: out of memory") || strings.Contains(out, "cannot allocate memory"):
+		case strings.Contains(out, "out of memory") || strings.Contains(out, "cannot allocate memory"):
 			outcome = "out-of-memory"
 		case strings.Contains(out, "fatal error:"):
 			i := strings.Index(out, "fatal error:")
